@@ -49,6 +49,17 @@ def gen(tier, rng):
         vs = " ".join(map(str, vals))
         for pn in range(0, 101):
             lines.append(f"agg percentile {pn} 1 {vs}")
+    # ONE aggregator value applied to several groups in turn (the generated code builds `percentile(p)` per evaluation of the aggregation
+    # clause's enclosing bindings and a user may hold one closure for many groups): the result for a group depends on that group alone
+    for k in range(40 if tier == "quick" else 400):
+        g = rng.fork(f"pseq{k}")
+        pn, pd = g.choice(PS)
+        groups = []
+        for _ in range(g.range(2, 6)):
+            n = g.choice([0, 0, 1, 1, 2, 3, 5, 8, 13])
+            span = g.choice([3, 10, 1000])
+            groups.append(" ".join(str(g.range(-span, span)) for _ in range(n)))
+        lines.append(f"agg percentile_seq {pn} {pd} " + " / ".join(groups))
     for n in list(range(0, 6)) + [17, 64]:
         lines.append(f"agg not {n}")
         hints = {(n, str(n)), (n, "none"), (0, "none"), (0, str(n)), (n, str(n + 3)), (0, str(n + 1)), (max(0, n - 1), str(n)),
@@ -89,6 +100,22 @@ def oracle(line, out):
         return None if out == ("1" if int(args[0]) == 0 else "0") else "not() must yield one unit iff the input is empty"
     if op == "count":
         return None if out == args[0] else f"expected cardinality {args[0]}"
+    if op == "percentile_seq":
+        pn, pd = args[0], args[1]
+        groups, cur = [], []
+        for a in args[2:]:
+            if a == "/":
+                groups.append(cur); cur = []
+            else:
+                cur.append(a)
+        groups.append(cur)
+        outs = out.split(" ; ")
+        if len(outs) != len(groups):
+            return f"expected {len(groups)} results"
+        for i, (g, o) in enumerate(zip(groups, outs)):
+            w = oracle(" ".join(["agg", "percentile", pn, pd] + g), o)
+            if w: return f"group {i} of one aggregator value applied to several groups: {w}"
+        return None
     if op == "percentile":
         pn, pd = int(args[0]), int(args[1])
         l = sorted(int(x) for x in args[2:])
@@ -164,7 +191,7 @@ def check(tier, replay=None):
         r.violation({"kind": "obligation-broken", "no_longer_checks": [f"harness/model output length impl={len(impl)} model={None if model is None else len(model)} ops={len(lines)} rc={rc}"], "stderr": err[-800:]}, no_input=True)
         return r.finish(TRUSTED)
     hist = {}
-    pcases = [(l, o) for l, o in zip(lines, impl) if l.startswith("agg percentile")]
+    pcases = [(l, o) for l, o in zip(lines, impl) if l.startswith("agg percentile ")]
     conv, deviating = rank_consistency(pcases)
     r.cov["percentile_rank_convention_followed"] = conv
     deviating = {l: (o, c) for l, o, c in deviating}
